@@ -5,12 +5,15 @@ import (
 	"context"
 	"encoding/json"
 	"fmt"
+	core "github.com/iden3/go-iden3-core/v2"
 	"math/big"
 	"reflect"
 	"strings"
 	"time"
 
+	jsonproc "github.com/iden3/go-schema-processor/v2/json"
 	"github.com/iden3/go-schema-processor/v2/merklize"
+	"github.com/iden3/go-schema-processor/v2/processor"
 	"github.com/iden3/go-schema-processor/v2/verifiable"
 )
 
@@ -113,6 +116,29 @@ func emitStructView(out *Out, r *Rng) {
 		_ = json.Unmarshal(noProof, &vcNo)
 		if mzN, err := vcNo.Merklize(context.Background(), merklize.WithDocumentLoader(loader)); err != nil || mzN.Root().BigInt().String() != root0 {
 			why = append(why, "root depends on the attached proofs")
+		}
+		// (2') claims built from the struct view through every entry point the library offers - the credential's own method, the
+		// (deprecated) json.Parser and the processor facade - are the same claim, built with the caller's merklizer options
+		// (the process default loader knows nothing during these calls: only the per-call loader can resolve the contexts)
+		merklize.SetDocumentLoader(&mapLoader{docs: map[string][]byte{}})
+		mo := []merklize.MerklizeOption{merklize.WithDocumentLoader(loader)}
+		hexOf := func(cl *core.Claim, err error) string {
+			if err != nil || cl == nil {
+				return "error"
+			}
+			h, _ := cl.Hex()
+			return h
+		}
+		direct := hexOf(vcNo.ToCoreClaim(context.Background(), &verifiable.CoreClaimOptions{RevNonce: 7, Version: 1, MerklizerOpts: mo}))
+		viaParser := hexOf(jsonproc.Parser{}.ParseClaim(context.Background(), vcNo, &processor.CoreClaimOptions{RevNonce: 7, Version: 1, MerklizerOpts: mo}))
+		facade := processor.InitProcessorOptions(&processor.Processor{}, processor.WithParser(jsonproc.Parser{}))
+		viaFacade := hexOf(facade.ParseClaim(context.Background(), vcNo, &processor.CoreClaimOptions{RevNonce: 7, Version: 1, MerklizerOpts: mo}))
+		merklize.SetDocumentLoader(loader)
+		if direct == "error" {
+			why = append(why, "ToCoreClaim with the caller's document loader (and an empty process default) fails")
+		}
+		if viaParser != direct || viaFacade != direct {
+			why = append(why, fmt.Sprintf("the claim built through json.Parser / the processor facade differs from ToCoreClaim with the same options: %s / %s vs %s", trunc(viaParser, 40), trunc(viaFacade, 40), trunc(direct, 40)))
 		}
 		// (3) encode -> decode: equal credential, same proof kinds, identical verification outcome
 		enc, err := json.Marshal(&vc)
